@@ -164,6 +164,10 @@ pub struct CompiledPredicate {
     out: u8,
     f_regs: usize,
     m_regs: usize,
+    /// The source expression, kept when the program contains AND/OR. Those are
+    /// three-valued (`NULL OR TRUE` is TRUE), so a row with a NULL operand is
+    /// not simply invalid; such batches are handed to the interpreter.
+    logic_source: Option<Expr>,
 }
 
 /// Is compilation enabled? `QE_COMPILE=0` restores the interpreter.
@@ -441,6 +445,10 @@ impl CompiledPredicate {
         }
         let mut c = Compiler::new();
         let out = c.boolean(expr, schema)?;
+        let has_logic = c
+            .prog
+            .iter()
+            .any(|i| matches!(i, Instr::And { .. } | Instr::Or { .. }));
         Some(CompiledPredicate {
             cols: c.cols,
             col_types: c.col_types,
@@ -448,6 +456,7 @@ impl CompiledPredicate {
             out,
             f_regs: c.next_f as usize,
             m_regs: c.next_m as usize,
+            logic_source: has_logic.then(|| expr.clone()),
         })
     }
 
@@ -475,6 +484,15 @@ impl CompiledPredicate {
         }
 
         let any_nulls = arrays.iter().any(|a| a.as_any_array().null_count() > 0);
+        if any_nulls {
+            if let Some(src) = &self.logic_source {
+                // The fused program is null-strict (valid iff every leaf is
+                // valid); AND/OR are not. Only batches that actually carry a
+                // NULL in a referenced column pay for the interpreter.
+                let arr = crate::physical::operators::evaluate_expr(batch, src).ok()?;
+                return arr.as_any().downcast_ref::<BooleanArray>().cloned();
+            }
+        }
 
         let mut f_slabs = vec![[0f64; CHUNK]; self.f_regs.max(1)];
         let mut m_slabs = vec![[0u8; CHUNK]; self.m_regs.max(1)];
